@@ -255,13 +255,13 @@ func C08(r *chk.Run) {
 	r.Assume("reference aggregates are computed from the call log; chunk count and the summary listings are taken from the file as decoded by harness/ref")
 	r.Assume("SkipMagic configurations are excluded: Reader cannot open a file without leading magic")
 	r.Rule("oracle: Writer.Statistics after Close, the statistics record decoded by the reference decoder, and Reader.Info().Statistics all equal the model aggregates; Info listings equal the summary groups the file keeps")
-	writerSpace(r, so, c08Oracle)
-	// Info must not depend on what else the Reader was used for
+	// Info must not depend on what else the Reader was used for (cheap phases first: never starved)
 	d := 3
 	if r.Thorough() {
 		d = 4
 	}
 	histPhase(r, "C08", d)
+	defer writerSpace(r, so, c08Oracle)
 	r.Rule("raw-record API: files re-emitted through AddSchema/AddChannel/WriteChunkWithIndexes (chunks passed on unopened, message counters maintained by the caller through the exported Statistics): counts of schemas, channels, attachments, metadata and chunks must be exact (the time range is not compared: a chunk header cannot tell 'no message' from 'messages at time 0')")
 	passthroughPhase(r, "C08", d-1)
 }
